@@ -6,7 +6,7 @@
 set -u
 ID="$1"; M="$2"; SUITE=1; [ "${3:-}" = "--no-suite" ] && SUITE=0
 D=/tmp/seedout/$ID/$M
-W=/tmp/wt-confirm
+W=${CONFIRM_WT:-/tmp/wt-confirm}
 export CARGO_TARGET_DIR=$W/target CARGO_NET_OFFLINE=true
 if [ ! -d $W ]; then git -C /repo worktree add -q --detach $W HEAD || exit 9; fi
 cd $W || exit 9
